@@ -319,6 +319,9 @@ impl<'de, 'p> SeqAccess<'de> for De<'p> {
 
 // ---------------------------------------------------------------------------------------------
 
+/// no single request to the process-global allocator during a deserialize call of a short input may exceed this
+const GLOBAL_BOUND: usize = 8 << 20;
+
 type M<K, V> = hashbrown::HashMap<K, V, PlanBH, CkAlloc>;
 type S<T> = hashbrown::HashSet<T, PlanBH, CkAlloc>;
 
@@ -375,7 +378,13 @@ fn map_case<K: Elem + Serialize + for<'d> de::Deserialize<'d>, V: Elem + Seriali
         let base = ckalloc::counters().live_bytes;
         ckalloc::reset_peak();
         let de = De { pairs: false, items: toks.items.clone(), is_map: true, hint: *hint, fail_at: None, pos: 0, probe: &mut probe };
+        crate::util::galloc_watch_start();
         let r: Result<M<K, V>, Er> = de::Deserialize::deserialize(de);
+        let gmax = crate::util::galloc_watch_stop();
+        // nothing the call allocates from the process-global allocator (staging buffers, ...) may follow the claim either
+        if gmax > GLOBAL_BOUND.max(64 * n_entries * std::mem::size_of::<(K, V)>()) {
+            crate::viol!("{}: claimed size hint {:?}: the call made a single request of {} bytes to the global allocator for {} entries", what, hint, gmax, n_entries);
+        }
         c.evaluations += 1;
         c.sig_parts(&[1, hi as u64, (n_entries == 0) as u64, crate::ctx::prop_salt(K::NAME)]);
         match r {
@@ -497,12 +506,17 @@ fn set_case<T: Elem + Serialize + for<'d> de::Deserialize<'d>>(c: &mut Ctx, rng:
             let de = De { pairs: false, items: toks.items.clone(), is_map: false, hint: *hint, fail_at: None, pos: 0, probe: &mut probe };
             c.evaluations += 1;
             c.sig_parts(&[4, hi as u64, in_place as u64, crate::ctx::prop_salt(T::NAME)]);
+            crate::util::galloc_watch_start();
             let r: Result<S<T>, Er> = if in_place {
                 de::Deserialize::deserialize_in_place(de, &mut place).map(|_| place)
             } else {
                 drop(place);
                 de::Deserialize::deserialize(de)
             };
+            let gmax = crate::util::galloc_watch_stop();
+            if gmax > GLOBAL_BOUND.max(64 * src.len() * std::mem::size_of::<T>().max(1)) {
+                crate::viol!("{}: claimed size hint {:?} (in_place {}): the call made a single request of {} bytes to the global allocator for {} elements", what, hint, in_place, gmax, src.len());
+            }
             match r {
                 Err(e) => crate::viol!("{}: deserialize(hint {:?}, in_place {}) failed: {}", what, hint, in_place, e),
                 Ok(back) => {
@@ -633,6 +647,7 @@ fn wrong_shape_case(c: &mut Ctx, rng: &mut Rng) {
             let what = ["HashMap offered a sequence of pairs", "HashSet offered a map", "HashSet (in place) offered a map"][shape as usize];
             let its = items.clone();
             let pr = &mut probe;
+            crate::util::galloc_watch_start();
             let r = crate::util::catch_expected(move || match shape {
                 0 => {
                     let de = De { pairs: true, items: its, is_map: false, hint: *hint, fail_at: None, pos: 0, probe: pr };
@@ -651,6 +666,8 @@ fn wrong_shape_case(c: &mut Ctx, rng: &mut Rng) {
                     r.map(|_| (place.len(), place.allocation_size())).map_err(|e: Er| e.0)
                 }
             });
+            let gmax = crate::util::galloc_watch_stop();
+            crate::check!(gmax <= GLOBAL_BOUND, "{} with claimed length {:?}: a single request of {} bytes went to the global allocator", what, hint, gmax);
             let bound = if shape == 0 { bound_m } else { bound_s };
             let cnt = ckalloc::counters();
             match r {
